@@ -223,6 +223,22 @@ def run_glob(tier, funcs, index, enums, res):
                          4 if tier == "quick" else 5, "".join(map(chr, c12_glob.PAT_ALPHA)), "".join(map(chr, c12_glob.SUBJ_ALPHA))))
 
 
+def run_classify(tier, funcs, index, enums, res):
+    """C19: CommandBuilder::execute's classification of the child's fate (shared with C20's execute exploration)"""
+    import c20_replace as c20
+    r = c20.explore_execute(funcs, index, enums)
+    res["functions_executed"].update(r.pop("functions_executed"))
+    for v in r.pop("violations"):
+        res["violations"].append({"key": "execute | %s" % v["what"].split("(")[0][:60], "summary": "execute: %s" % v["what"], "replayer": "exit_code_map", "what": v["what"]})
+    for k, c in r.pop("unsupported").items():
+        res["unsupported"][k] = res["unsupported"].get(k, 0) + c
+    r["bound"] = "CommandBuilder::execute: child fate symbolic"
+    r["inputs_covered"] = r.pop("checks")
+    res["runs"].append(r)
+    res["target"] += "; CommandBuilder::execute: classification of every wait status / spawn failure (exit 0, 1..254, 255, killed by signal 1..64, not found, cannot run)"
+    res["bounds"] += "; execute: exit code 0..255, signal 1..64, spawn error NotFound / other (all symbolic)"
+
+
 def run_replace(tier, funcs, index, enums, res, text):
     import c20_replace as c20
     res["target"] = ("normalize_options (mode and delimiter selection), CommandBuilder::execute (argv assembly with -I, classification of the child's fate), and the -I pipeline "
@@ -329,6 +345,8 @@ def main():
             run_operands(tier, funcs, index, enums, res)
     elif prop in ("C04", "C19"):
         run_batching(tier, funcs, index, enums, res)
+        if prop == "C19":
+            run_classify(tier, funcs, index, enums, res)
     elif prop in ("C18", "C02"):
         run_startpoints(tier, funcs, index, enums, res)
         if prop == "C02":
